@@ -40,7 +40,7 @@ import (
 )
 
 func init() {
-	components["codec"] = &component{gen: codecGen, enum: codecEnum, run: codecRun}
+	components["codec"] = &component{gen: codecGen, enum: codecEnum, run: codecRun, direct: codecDirect}
 }
 
 type codecStuck struct{}
@@ -640,4 +640,122 @@ func codecEnum(args []string, w *bufio.Writer) {
 			}
 		}
 	}
+}
+
+// ---- direct mode: payloads of exactly the limit (1 GiB), which cannot travel through a hex trace -----------------
+
+// codecBigStream is a minimal in-memory transport for the limit-size round trip: writes are appended to wire
+// (accepting at most maxWrite bytes each), reads serve wire in the scripted cuts.
+type codecBigStream struct {
+	wire     []byte
+	rd       int
+	cuts     []int
+	maxWrite int
+}
+
+func (s *codecBigStream) RawFd() int   { return -1 }
+func (s *codecBigStream) Close() error { return nil }
+func (s *codecBigStream) Cancel()      {}
+func (s *codecBigStream) Write(b []byte) (int, error) {
+	n := len(b)
+	if s.maxWrite > 0 && n > s.maxWrite {
+		n = s.maxWrite
+	}
+	s.wire = append(s.wire, b[:n]...)
+	return n, nil
+}
+func (s *codecBigStream) Read(b []byte) (int, error) {
+	if s.rd == len(s.wire) {
+		return 0, sonicerrors.ErrWouldBlock
+	}
+	n := len(s.wire) - s.rd
+	if len(s.cuts) > 0 {
+		if s.cuts[0] < n {
+			n = s.cuts[0]
+		}
+		s.cuts = s.cuts[1:]
+	}
+	n = copy(b, s.wire[s.rd:s.rd+n])
+	s.rd += n
+	return n, nil
+}
+func (s *codecBigStream) AsyncRead(b []byte, cb sonic.AsyncCallback)    { n, err := s.Read(b); cb(err, n) }
+func (s *codecBigStream) AsyncReadAll(b []byte, cb sonic.AsyncCallback) { panic("unused") }
+func (s *codecBigStream) AsyncWrite(b []byte, cb sonic.AsyncCallback) {
+	n, err := s.Write(b)
+	cb(err, n)
+}
+func (s *codecBigStream) AsyncWriteAll(b []byte, cb sonic.AsyncCallback) { panic("unused") }
+
+var _ sonic.Stream = (*codecBigStream)(nil)
+
+func codecPattern(i int) byte { return byte(i*7 + i>>11 + 13) }
+
+// codecDirect (thorough tier): payloads of limit-1 and limit bytes make the whole round trip through WriteNext and
+// ReadNext, cut inside the prefix and at arbitrary places; limit+1 is refused by WriteNext before anything is buffered.
+func codecDirect(seed uint64, tier string, args []string, w *bufio.Writer) {
+	if tier != "thorough" {
+		fmt.Fprintf(w, "DIRECT-STAT {\"codec_limit_roundtrip\": \"skipped (thorough tier only)\"}\n")
+		return
+	}
+	r := newRng(seed)
+	fail := func(key, msg string) { fmt.Fprintf(w, "DIRECT-FAIL key=codec.%s %s\n", key, msg) }
+	sizes := []int{frame.MaxPayloadLength - 1, frame.MaxPayloadLength}
+	done := 0
+	for _, size := range sizes {
+		st := &codecBigStream{wire: make([]byte, 0, size+8), maxWrite: 1 << (20 + r.intn(10))}
+		src, dst := sonic.NewByteBuffer(), sonic.NewByteBuffer()
+		conn, _ := sonic.NewCodecConn[[]byte, []byte](st, frame.NewCodec(src), src, dst)
+		payload := make([]byte, size)
+		for i := range payload {
+			payload[i] = codecPattern(i)
+		}
+		n, err := conn.WriteNext(payload)
+		payload = nil
+		if err != nil || n != size+4 || dst.ReadLen() != 0 || dst.WriteLen() != 0 {
+			fail("write.flush", fmt.Sprintf("WriteNext of %d bytes: n=%d err=%v dst=%d/%d", size, n, err, dst.ReadLen(), dst.WriteLen()))
+			continue
+		}
+		if len(st.wire) != size+4 || binary.BigEndian.Uint32(st.wire) != uint32(size) {
+			fail("write.wire", fmt.Sprintf("wire holds %d bytes for a payload of %d", len(st.wire), size))
+			continue
+		}
+		dst = nil
+		st.cuts = []int{1, 2, 1 + r.intn(1000), 1 + r.intn(size), 1 + r.intn(size)} // the first two cuts are inside the prefix
+		item, err := conn.ReadNext()
+		if err != nil || len(item) != size {
+			fail("read.item", fmt.Sprintf("ReadNext of a %d-byte item: len=%d err=%v", size, len(item), err))
+			continue
+		}
+		bad := -1
+		for i := range item {
+			if item[i] != codecPattern(i) {
+				bad = i
+				break
+			}
+		}
+		if bad >= 0 {
+			fail("read.item", fmt.Sprintf("payload of %d bytes differs at offset %d", size, bad))
+			continue
+		}
+		if _, err := conn.ReadNext(); !errors.Is(err, sonicerrors.ErrWouldBlock) {
+			fail("read.item", fmt.Sprintf("a second item appeared after the %d-byte one: err=%v", size, err))
+			continue
+		}
+		done++
+	}
+	// one byte over the limit: refused by the encoder, nothing buffered, nothing written
+	{
+		st := &codecBigStream{}
+		src, dst := sonic.NewByteBuffer(), sonic.NewByteBuffer()
+		conn, _ := sonic.NewCodecConn[[]byte, []byte](st, frame.NewCodec(src), src, dst)
+		capBefore := dst.Cap()
+		n, err := conn.WriteNext(make([]byte, frame.MaxPayloadLength+1))
+		if !errors.Is(err, frame.ErrPayloadLengthOverflow) || n != 0 || len(st.wire) != 0 || dst.Cap() != capBefore || dst.WriteLen() != 0 {
+			fail("write.wire", fmt.Sprintf("WriteNext of limit+1 bytes: n=%d err=%v wire=%d cap %d->%d", n, err, len(st.wire), capBefore, dst.Cap()))
+		} else {
+			done++
+		}
+	}
+	fmt.Fprintf(w, "DIRECT-STAT {\"codec_limit_roundtrip\": \"%d of 3 limit-size checks passed (limit-1, limit, limit+1 refused)\"}\n", done)
 }
